@@ -31,6 +31,7 @@ def streams(tier, rng, fs, profile):
         k = rng.randrange(4)
         rads = [r for i, r in enumerate(rads) if i % 4 == k or r in (2, 10, 16, 32)]
     ops = (gens.float_parse_hard_ops(rng, fs, rads, 60 if quick else 600, rich=True, tails=2 if quick else 30, lossy=True)
+           + gens.exact_tie_ops(rng, fs, per_q=3 if quick else 30, lossy=True)
            + gens.float_exp_ops(rng, fs, rads[:6] if quick else rads, lossy=True)
            + gens.float_random_ops(rng, fs, rads, 100 if quick else 3000, lossy=True))
     # paired exact ops (same input, lossy = 0) for the syntax-independence relation
